@@ -18,6 +18,7 @@ import CG.Driver.HNxReach
 import CG.Driver.HNxTopo
 import CG.Driver.HPyJson
 import CG.Driver.HNxGml
+import CG.Driver.HIndex
 
 /-- stateless handlers: first token of a line selects the handler -/
 def handlers : List (String × (List String → String)) := [
@@ -41,6 +42,7 @@ def handlers : List (String × (List String → String)) := [
   ("nxtopo", CG.Driver.NxTopo.handle),
   ("pyjson", CG.Driver.PyJson.handle),
   ("nxgml", CG.Driver.NxGml.handle),
+  ("idx", CG.Driver.Index.handle),
   ("gecho", fun args => match args with
     | [t] => (match CG.Driver.GraphCodec.decGraph? t with | some g => CG.Driver.GraphCodec.encGraph g | none => "bad-op")
     | _ => "bad-op")
